@@ -433,6 +433,24 @@ func (e *Engine) VerifyFunc(c *Contract) {
 				Verdict: "sat", Solver: "engine", Note: "ghost assert `" + a.Text + "` is attached to program point `" + a.Where + "`, which does not occur in the function any more"})
 		}
 	}
+	// helper clauses attached to a program point that never occurs are inert: say so (they cannot make a proof pass)
+	if os.Getenv("GOVC_WARN") != "" {
+		for _, u := range c.Uses {
+			if e.applies(&Clause{Props: u.Props}) && !fc.firedWhere[u.Where] {
+				fmt.Fprintf(os.Stderr, "warning: %s: use clause at unknown program point %q never applied: %s\n", name, u.Where, u.Text)
+			}
+		}
+		for _, a := range c.Assumes {
+			if e.applies(&Clause{Props: a.Props}) && !fc.firedWhere[a.Where] {
+				fmt.Fprintf(os.Stderr, "warning: %s: assume clause at unknown program point %q never applied: %s\n", name, a.Where, a.Text)
+			}
+		}
+		for _, l := range c.Lets {
+			if !fc.firedWhere[l.Where] {
+				fmt.Fprintf(os.Stderr, "warning: %s: let clause at unknown program point %q never bound: %s\n", name, l.Where, l.Text)
+			}
+		}
+	}
 	e.verified = append(e.verified, name)
 }
 
